@@ -62,7 +62,15 @@ class _RequestHandler:
         self.logger.info("<= [%s]: %s", client_address, data)
         try:
             response = {}
-            request = json.loads(data)
+            try:
+                request = json.loads(data)
+            except (RecursionError, ValueError) as e:
+                # Not every undecodable document raises JSONDecodeError:
+                # too deeply nested input raises RecursionError and
+                # oversized integer literals raise a plain ValueError
+                self.logger.debug("JSON error: %s", e)
+                response = self.protocol.format_error()
+                return
             self.logger.debug("Delivering request")
             response = self.protocol.handle_request(request)
             self.logger.debug("Got response: %s", response)
